@@ -103,10 +103,16 @@ def evaluate(case):
                 f.append(("grammar_without_cycle_rejected", f"grammar {conc['prods']!r} start {conc['start']!r} "
                           f"smart_factorization={smart}"))
             elif res == "accepted":
-                for inp in case["inputs"]:
+                for ii, inp in enumerate(case["inputs"]):
                     tokens = concrete_tokens(conc, inp["toks"])
                     text, _ = gk.render(tokens, inp["seps"])
-                    kind, r, stt = parse_guarded(L, parser, text, len(tokens), do_cleanup=False)
+                    # the text as str or as an iterable of lines (list, one-shot iterator, generator): "a tree or a parsing
+                    # error" holds for every documented form of the input
+                    form = ("str", "iter", "list", "gen")[(ii + len(tokens)) % 4]
+                    src = {"str": lambda: text, "list": lambda: text.split("\n"), "iter": lambda: iter(text.split("\n")),
+                           "gen": lambda: (ln for ln in text.split("\n"))}[form]()
+                    classes.add("text_as_" + form)
+                    kind, r, stt = parse_guarded(L, parser, src, len(tokens), do_cleanup=False)
                     evals += 1
                     if kind == "diverged":
                         f.append(("accepted_grammar_parse_diverges", f"grammar {conc['prods']!r} text {text!r}: {r}"))
